@@ -172,4 +172,98 @@ def historyTags (H : Bytes → D) (cfg : Cfg) : Cache D → List (Attempt D) →
   | c, a :: as => pullTags H cfg c a ++ historyTags H cfg (pull H cfg c a).1 as
 
 end
+/-! ## Branch tags of the push models (HTTP exchanges, new-client push, legacy push) -/
+
+/-- which branch of `exchangeFrom` / `follow` one physical request takes -/
+def hopTag (sent : Nat) (m : Method) (b : BodyKind) (r : Resp) : String :=
+  if r.status = 0 then "http.no-answer"
+  else match follow m b r with
+    | none =>
+      if r.loc && (r.status = 307 || r.status = 308) then "http.307-308-not-followed-body-not-resendable"
+      else if r.loc && decide (300 ≤ r.status) && decide (r.status < 400) then "http.3xx-with-location-not-a-redirect"
+      else if decide (300 ≤ r.status) && decide (r.status < 400) then "http.3xx-without-location"
+      else if r.status < 200 then "http.final-1xx"
+      else if r.status < 300 then "http.final-2xx"
+      else if r.status < 500 then "http.final-4xx"
+      else "http.final-5xx"
+    | some (m', _) =>
+      if sent ≥ 10 then "http.redirect-limit"
+      else if r.status = 307 || r.status = 308 then "http.307-308-repeats-method-and-body"
+      else if m' = m then "http.301-303-keeps-get-head" else "http.301-303-becomes-get"
+
+/-- one tag per physical request of an exchange (same walk as `exchangeFrom`) -/
+def exchangeTagsFrom : Nat → Nat → Method → BodyKind → List Resp → List String
+  | 0, _, _, _, _ => ["http.out-of-fuel"]
+  | fuel + 1, sent, m, b, rs =>
+    let r := rs.headD ⟨200, false⟩
+    if r.status = 0 then [hopTag sent m b r]
+    else match follow m b r with
+      | none => [hopTag sent m b r]
+      | some (m', b') =>
+        if sent ≥ 10 then [hopTag sent m b r]
+        else hopTag sent m b r :: exchangeTagsFrom fuel (sent + 1) m' b' rs.tail
+
+def exchangeTags (m : Method) (b : BodyKind) (rs : List Resp) : List String := exchangeTagsFrom 10 1 m b rs
+
+/-- tags of one layer goroutine of `Registry.Push` -/
+def layerRunTags (u : UpScript) : List String :=
+  let p := exchange .post .none u.post
+  exchangeTags .post .none u.post ++
+  match p.2 with
+  | none => ["push.post-no-response"]
+  | some r =>
+    if !is2xx r.status then ["push.post-refused"]
+    else if !r.loc then ["push.registry-has-blob"]
+    else exchangeTags .put .stream u.put ++
+      [if exchangeOk (exchange .put .stream u.put).2 then "push.upload-accepted" else "push.upload-failed"]
+
+def pushTags (ups : List UpScript) (man : List Resp) : List String :=
+  ups.flatMap layerRunTags ++
+    (if layersGood ups then
+      exchangeTags .put .rewindable man ++
+        [if (manifestRun man).2 then "push.manifest-accepted" else "push.manifest-failed"]
+     else ["push.manifest-suppressed"])
+
+/-- tags of `uploadBlob` for one layer of the legacy push -/
+def legacyLayerTags (strict : Bool) (l : LegacyLayer) : List String :=
+  let h := exchange .head .none l.head
+  exchangeTags .head .none l.head ++
+  match mrr strict h.2 with
+  | .ok _ => ["legacy.head-registry-has-blob"]
+  | .err => ["legacy.head-error"]
+  | .notFound =>
+    let p := exchange .post .none l.post
+    exchangeTags .post .none l.post ++
+    match mrr strict p.2 with
+    | .ok r =>
+      if !r.loc then ["legacy.post-without-location"]
+      else
+        let a := triesX 0 2 .patch .stream (patchOk strict) maxRetries l.patch
+        (if (patchOk strict (exchange .patch .stream (l.patch.headD [])).2) then [] else ["legacy.patch-try-failed-retried"]) ++
+        match a.2 with
+        | none => ["legacy.patch-tries-exhausted"]
+        | some ra =>
+          if !ra.loc then ["legacy.patch-answer-without-location"]
+          else
+            let c := triesX 0 3 .put .none (commitOk strict) maxRetries l.commit
+            (if (commitOk strict (exchange .put .none (l.commit.headD [])).2) then [] else ["legacy.commit-try-failed-retried"]) ++
+            [if c.2.isSome then "legacy.layer-committed" else "legacy.commit-tries-exhausted"]
+    | .notFound => ["legacy.post-not-found"]
+    | .err => ["legacy.post-error"]
+
+/-- layers in order; the layers after the first failing one are never started -/
+def legacyLayersTags (strict : Bool) : List LegacyLayer → List String
+  | [] => []
+  | l :: ls =>
+    legacyLayerTags strict l ++
+      (if (legacyLayer strict 0 l).2 then legacyLayersTags strict ls
+       else if ls.isEmpty then [] else ["legacy.later-layers-not-started"])
+
+def legacyTags (strict : Bool) (ls : List LegacyLayer) (man : List Resp) : List String :=
+  legacyLayersTags strict ls ++
+    (if (legacyLayers strict 0 ls).2 then
+      exchangeTags .put .rewindable man ++
+        [if (legacyManifest strict man).2 then "legacy.manifest-accepted" else "legacy.manifest-failed"]
+     else ["legacy.manifest-suppressed"])
+
 end OllamaVerif.Registry
